@@ -7,6 +7,7 @@ P = {
     "theorems_module": "Properties.C03",
     "theorems": ["C03_method_list_semantics", "C03_method_list_rejected", "C03_hosts_any", "C03_decode_per_setting",
                  "C03_route_matches_iff", "C03_captures_exact", "C03_unnamed_not_exposed",
+                 "C03_matcher_sees_route_keys", "C03_lookup_answers_as_documented", "C03_lookup_answers_as_documented_now", "C03_lookup_no_panic", "C03_lookup_entry",
                  "C03_F1_pinned_refuted", "C03_F3_pinned_refuted", "C03_F4_pinned_refuted",
                  "C03_F2_pinned_refuted", "C03_F5_pinned_refuted", "C03_F5_pinned_panic_refuted", "C03_F6_pinned_refuted",
                  "C03_F7_pinned_refuted", "C03_F8_pinned_refuted", "C03_nonvacuous"],
@@ -42,22 +43,29 @@ P = {
                 "radix tree: Add / findNode / Find are transcribed (no Delete, no priority sorting: static index bytes are unique); which route "
                 "is consulted first is C02's subject, C03 compares keys, values, answers and captures of the calls made",
                 "Go map iteration order is irrelevant: captures are compared as sorted association lists"],
-    "level_text": "Proof (kernel-checked, no axioms), for all method lists, host lists, path_params lists, engines, requests, keys and values: "
-                  "the matcher CreateRule assembles for a route answers exactly scheme && method(ALL / !M) && any-host && all path_params on the "
-                  "decoded value of the named wildcard, and never panics when keys and values have equal length (C03_route_matches_iff, "
-                  "C03_method_list_semantics, C03_hosts_any); the capture decoding of Execute equals the specified percent-decoding per "
-                  "encoded-slash setting, rejection under `off` exactly on encoded slashes, unnamed wildcards not exposed (C03_captures_exact, "
-                  "C03_decode_per_setting, C03_unnamed_not_exposed) - each outside the guards of the findings C03-F1, F4, F6, F7, F8, every "
-                  "guard with a _refuted witness. The key/value hand-over of the lookup tree (C03-F2, F3, F5) is proved refuted by witnesses on "
-                  "loaded rule sets and otherwise covered by correspondence: the model (faithful Add / findNode / Find) is run against the real "
-                  "CreateRule + repository + request contexts on ~1200 (quick) / 30000 (thorough) rule sets x 6-14 requests per run and every "
-                  "matcher call's keys, values and answer, the selected rule and the captures are compared.",
+    "level_text": "Proof (kernel-checked, no axioms). (1) Conditions: for all method lists, host lists, path_params lists, engines, requests, "
+                  "keys and values, the matcher CreateRule assembles for a route answers exactly scheme && method(ALL / !M) && any-host && all "
+                  "path_params on the decoded value of the named wildcard, and never panics (C03_route_matches_iff, C03_method_list_semantics, "
+                  "C03_hosts_any). (2) Decoding: the capture decoding equals the specified percent-decoding per encoded-slash setting for all three "
+                  "variants of the decoder, rejection under `off` exactly on encoded slashes, unnamed wildcards not exposed "
+                  "(C03_decode_per_setting, C03_captures_exact, C03_unnamed_not_exposed). (3) Lookup tree, for ALL rule sets loaded by Add (any "
+                  "number of rules/routes, any insertion order, prefix splitting and escapes included) and all requests: every matcher call is made "
+                  "with the wildcard names the route declares and the segments its wildcards match, free wildcard included "
+                  "(C03_matcher_sees_route_keys: insertion invariant over addNode/splitCommonPrefix, soundness of findNode, and a proof that the "
+                  "byte-level position of an expression agrees with the documentation's segment-level matching); hence end to end every call answers "
+                  "as documented (C03_lookup_answers_as_documented, _now without any guard), the lookup never panics (C03_lookup_no_panic) and the "
+                  "entry returned carries exactly the named segments (C03_lookup_entry). All eight findings C03-F1..F8 were repaired by fix: commits; "
+                  "the model is parametric in each repair, the main theorems hold for every variant with guards that are false by definition for "
+                  "the repaired one, and each pinned behaviour is kept as a _pinned_refuted witness. The model is tied to the code by running both on "
+                  "~1200 (quick) / 30000 (thorough) generated rule sets x 3-8 requests per run and comparing every matcher call's keys, values and "
+                  "answer, the selected rule, the captures and the rejection.",
     "level_note": "Trusted: Coq kernel/vm_compute; the driver (generator, recorder between tree and route, Gallina rendering); glob/regex "
-                  "engines as recorded oracles; the request view as case data. Values that are not validly percent-encoded (reachable only "
-                  "through Envoy) carry no requirement (hypothesis valid_enc). Eight open findings with guards (F1 hosts AND-ed, F2 free-wildcard "
-                  "keys, F3 catch-all key rename, F4 exclusion-only method list, F5 captures lost after a dead end -> wrong captures / "
-                  "request-triggered panic, F6 path_params on undecoded value under off, F7 lower-case %2f, F8 place-holder text); candidate "
-                  "repairs fixes/C03-F2.diff and fixes/C03-F5.diff, the model is parametric in both (check fx2 fx5).",
+                  "engines as recorded oracles; the request view (method, scheme, host, Path, RawPath) as case data. Values that are not validly "
+                  "percent-encoded carry no requirement (hypothesis valid_enc; such paths are rejected by net/http and yield an empty Path under "
+                  "Envoy). Which route is consulted first / backtracking is C02's subject: the C03 theorems speak about the calls that are made and "
+                  "are conditional on the consulted route's expression matching the path per the documentation (spec => tree direction proved; the "
+                  "converse is C02). Tree Delete and priority sorting are not modelled (lookups on trees built by Add). Decoder spec reading: a kept "
+                  "encoded slash is written in the canonical spelling %2F (RFC 3986 2.1), which is what the repair of F7 does.",
     "assumptions": ["the driver is in-package (internal/rules) and wraps rule.Route values; a rename of ruleImpl/routeImpl fields or of the "
                     "Route interface breaks the driver, not the property",
                     "HTTP entry points always set RawPath (= EscapedPath); the Envoy entry point never does - taken from the observed view"],
